@@ -205,8 +205,11 @@ pub fn take_words_qmc(g: &GQ, seen: &mut usize) -> Vec<Word> {
 
 /// Random interaction sets of the classes the property names.
 pub fn random_qmc(rng: &mut SplitMix64) -> QmcSpec {
-    let nvars = 1 + rng.below(4) as usize;
-    let class = rng.below(4);
+    let mut nvars = 1 + rng.below(4) as usize;
+    let class = rng.below(5);
+    if class == 4 {
+        nvars = nvars.max(3);
+    }
     let mut bonds = vec![];
     let d = |rng: &mut SplitMix64| (1 + rng.below(12)) as f64 * 0.25;
     match class {
@@ -272,6 +275,26 @@ pub fn random_qmc(rng: &mut SplitMix64) -> QmcSpec {
                 bonds.push(BondSpec { kind: 2 + rng.below(2) as usize, mat: m, vars: vs });
             }
         }
+        4 => {
+            // multi-body vertices whose matrices allow flipping only SOME of their variables
+            // (constant 3-body terms): after a loop update such an operator changes a strict
+            // subset of the spins it covers, which the diagonal sweep must carry through exactly
+            let nb = 1 + rng.below(2) as usize;
+            for _ in 0..nb {
+                let vs = pick_distinct(rng, nvars, 3);
+                let w = d(rng);
+                bonds.push(BondSpec { kind: 0, mat: vec![w; 64], vars: vs });
+            }
+            if rng.chance(1, 2) {
+                let vs = pick_distinct(rng, nvars, 2);
+                let (a, b) = (d(rng), d(rng));
+                bonds.push(BondSpec { kind: 2, mat: vec![a, b, b, a], vars: vs });
+            }
+            if rng.chance(1, 2) {
+                let c = d(rng);
+                bonds.push(BondSpec { kind: 0, mat: vec![c, c, c, c], vars: vec![0] });
+            }
+        }
         _ => {
             // single-site full matrices with even-parity structure only on the diagonal + constant terms
             for v in 0..nvars {
@@ -285,7 +308,7 @@ pub fn random_qmc(rng: &mut SplitMix64) -> QmcSpec {
         }
     }
     let state = (0..nvars).map(|_| rng.chance(1, 2)).collect();
-    QmcSpec { nvars, bonds, state, loops: class == 0 || rng.chance(1, 4), hb: rng.chance(1, 3) }
+    QmcSpec { nvars, bonds, state, loops: class == 0 || class == 4 || rng.chance(1, 4), hb: rng.chance(1, 3) }
 }
 
 /// switch the sampler's TapeRng log off (long statistical runs) by re-attaching a non-logging RNG through serde
